@@ -1,7 +1,7 @@
 (** C04 - Navigation attributes and sibling/ancestor helpers equal their
     definitions.  A node is (root tree, position).  Only statements. *)
 Require Import AT.Model.Base AT.Model.Rose AT.Model.Iter AT.Model.Nav AT.Spec.IterSpec AT.Spec.NavSpec.
-Require AT.Proofs.NavProofs.
+Require AT.Proofs.NavProofs AT.Proofs.CommonAnc AT.Proofs.AbsProofs AT.Model.Abs AT.Model.Heap AT.Spec.MutSpec.
 Import AT.Proofs.NavProofs.
 
 (** path is the chain from the root down to the node (the upward walk never
@@ -54,12 +54,37 @@ Theorem C04_rightsibling : forall t p, valid t p -> rightsibling t p = rightsibl
 Proof. exact rightsibling_ok. Qed.
 Print Assumptions C04_rightsibling.
 
-(** Not yet proved in Coq (kept visible): util.commonancestors = the prefixes
-    of the longest common prefix of the parents' positions.  Decided on every
-    explored argument list by evaluating this specification on the observed
-    result. *)
-Definition C04_commonancestors_full : Prop :=
-  forall t ps, Forall (valid t) ps -> commonancestors t ps = Ok (commonancestors_spec t ps).
+(** util.commonancestors( *nodes ): the prefixes of the longest common prefix of
+    the given nodes' parent positions - i.e. the longest common prefix of their
+    ancestor chains - for any number of arguments (none: empty; a root among
+    them: empty) *)
+Theorem C04_commonancestors : forall t ps, commonancestors t ps = Ok (commonancestors_spec t ps).
+Proof. exact AT.Proofs.CommonAnc.commonancestors_ok. Qed.
+Print Assumptions C04_commonancestors.
+
+(** "All values are computed from the current links, so they are correct
+    immediately after any mutation": under the C01 invariant (which every
+    mutation history preserves, C01_history) the tree the queries are stated
+    over IS the unfolding of the link heap: its positions are the downward
+    paths of the heap, node.children / node.parent of a position are the
+    heap's children / parent of the node it stands for *)
+Theorem C04_tree_of_heap : forall h, AT.Spec.MutSpec.Inv h -> forall n,
+  AT.Model.Abs.tree_of h n = T n (map (AT.Model.Abs.tree_of h) (AT.Model.Heap.children h n)).
+Proof. exact AT.Proofs.AbsProofs.tree_of_unfold. Qed.
+Print Assumptions C04_tree_of_heap.
+Theorem C04_children_agree : forall h, AT.Spec.MutSpec.Inv h -> forall r p m,
+  AT.Proofs.AbsProofs.node_at h r p = Some m ->
+  map label (kids (sub (AT.Model.Abs.tree_of h r) p)) = AT.Model.Heap.children h m /\
+  label_at (AT.Model.Abs.tree_of h r) p = m.
+Proof.
+  intros h I r p m E. split; [apply AT.Proofs.AbsProofs.children_agree; auto|apply AT.Proofs.AbsProofs.label_at_tree_of; auto].
+Qed.
+Print Assumptions C04_children_agree.
+Theorem C04_parent_agree : forall h, AT.Spec.MutSpec.Inv h -> forall r p i m,
+  AT.Proofs.AbsProofs.node_at h r (p ++ [i]) = Some m ->
+  exists q, AT.Proofs.AbsProofs.node_at h r p = Some q /\ AT.Model.Heap.parent h m = Some q.
+Proof. exact AT.Proofs.AbsProofs.parent_agree. Qed.
+Print Assumptions C04_parent_agree.
 
 Example C04_example :
   let t := T 0 [T 1 [T 2 []; T 3 []]; T 4 [T 5 []]] in
